@@ -35,8 +35,10 @@ CLAIM = {
         "designates; a generic re-annotation is reported as overridden — false only for TypedDict) the model of "
         "GenericResolver returns for every field exactly the declared type: the annotation of the defining class with "
         "every type variable replaced along the chain of base subscriptions, implicit parameters (Any / bound / Union of "
-        "constraints) for a class left bare (resolve_eq_spec_partial, bare_uses_implicit, shadowing_wins, "
-        "resolved_closed, subst_comp). The full-strength statement without the side conditions is refuted in Lean by "
+        "constraints) for a class left bare (resolve_eq_spec_partial, resolve_eq_spec_no_conflict, "
+        "resolve_eq_spec_pydantic, bare_uses_implicit, shadowing_wins, resolved_closed, subst_comp). Side condition 1 is "
+        "derived from structural facts (C3 monotonicity + no two bases providing a field from different class bodies; "
+        "always true for single inheritance). The full-strength statement without the side conditions is refuted in Lean by "
         "two concrete hierarchies (diamond whose non-leftmost branch re-annotates generically; TypedDict generic "
         "re-annotation) that reproduce on the real library and are listed as known findings. The model is tied to the "
         "code by four correspondences over generated REAL dataclass/attrs/NamedTuple/TypedDict/pydantic hierarchies."
@@ -47,7 +49,8 @@ CLAIM = {
         "differential correspondence (random hierarchies depth <= 4, arity <= 3). 'Loading conforming data succeeds / "
         "other substitution fails' is established by the direct oracle on the real library only (no Lean theorem: it "
         "needs the C02 loader semantics). Not modelled: TypeVarTuple/Unpack, ParamSpec, TypeVar defaults (3.13). "
-        "pydantic: its own substitution of model_fields is taken as given (third-party); the documented 'tricky cases' "
+        "pydantic: its own substitution of model_fields is taken as given (third-party, modelled by the specification "
+        "relative to the class's parameters, validated by the raw-members correspondence); the documented 'tricky cases' "
         "(base subscribed with its own parameters `P[T]`, bare generic pydantic parent) are excluded."
     ),
     "design_ref": "DESIGN.md §4 C16",
@@ -1128,6 +1131,8 @@ def process(ctx: Ctx, drv, items):
             ctx.dist["model-wf" if m["wf"] else "model-not-wf"] += 1
             if m["wf"] and m["prec"] and m["ovis"] and case["kind"] != "pydantic":
                 ctx.dist["covered-by-resolve_eq_spec_partial"] += 1
+            if m["wf"] and m["prec"] and case["kind"] == "pydantic":
+                ctx.dist["covered-by-resolve_eq_spec_pydantic"] += 1
             if m["wf"] and m["mono"] and m["noconf"] and case["kind"] not in ("pydantic", "typeddict"):
                 ctx.dist["covered-by-resolve_eq_spec_no_conflict"] += 1
             if not m["mono"]:
